@@ -300,11 +300,12 @@ def ts_docs(scratch, drive):
     d = scratch.sub("tsdocs")
     if os.listdir(d):
         return d
-    for fam in ("S", "C"):
+    for fam in ("S", "C", "D"):
         out = scratch.path("ttx.extra.%s.ndjson" % fam)
-        r = tlc(scratch, "GenTeletext", "GenTeletext.cfg", env=dict(GEN_FAM=fam, GEN_PART=0, GEN_PARTS=4, GEN_OUT=out), heap="2g", timeout=900)
+        r = tlc(scratch, "GenTeletext", "GenTeletext.cfg", env=dict(GEN_FAM=fam, GEN_PART=0, GEN_PARTS=1 if fam == "D" else 4, GEN_OUT=out), heap="2g", timeout=900)
         require_ok(r, "GenTeletext (extra documents)")
-        vlib.run_drive(drive, ["teletext", "-cases", out, "-out", scratch.path("ttx.extra.%s.trace" % fam), "-dump", d, "-n0", str(ord(fam))])
+        vlib.run_drive(drive, ["teletext", "-cases", out, "-out", scratch.path("ttx.extra.%s.trace" % fam), "-dump", d, "-n0", str(ord(fam))]
+                       + (["-dumpall"] if fam == "D" else []))
     return d
 
 
@@ -1003,7 +1004,11 @@ def check_conc(pid, tier, seed, scratch, replay):
                 "generators, conversions of them by every writer, Unicode text classes - is dealt to 16 goroutines; then random mixes on "
                 "2..32 goroutines, randomised start, GOMAXPROCS 2/4/16. Every call's "
                 "result digest is compared by TLC with its alone-run digest, the package-table fingerprint (hook VerifTablesFingerprint) "
-                "must stay constant, and the race detector's log must be empty. Non-trivial = distinct (operation, schedule/scenario).")
+                "must stay constant, and the race detector's log must be empty. Every operation is also run alone three times - in catalogue "
+                "order, in the opposite order, and in one of eight fresh processes that each run a share of the operations - and must return "
+                "the same each time (state that a call leaves behind for the calls after it: pools, caches); the documents include pairs "
+                "of which the first ends inside something a decoder keeps (a floating accent, an unclosed tag) and teletext streams with and "
+                "without a character-set designation. Non-trivial = distinct (operation, schedule/scenario).")
     rep.assumptions = ["absence of data races is the Go race detector's observation on the executed schedules, not a proof",
                        "gate-forced interleavings cover the first steps of each call (then the calls run freely to completion)"]
     drive = vlib.build_harness(scratch)
@@ -1033,7 +1038,8 @@ def check_conc(pid, tier, seed, scratch, replay):
         log("source documents generated in %.1fs" % (time.time() - t_))
         t_ = time.time()
         vlib.run_drive(drive_race, ["conc", "-out", tr, "-seed", str(seed), "-free", "150" if thorough else "30", "-rounds", "3" if thorough else "1"], timeout=3000,
-                       env={"GORACE": "log_path=%s exitcode=0 halt_on_error=0" % racelog, "VERIF_EXTRA_DOCS": docs, "VERIF_CONC_EVERY": 1 if thorough else 3})
+                       env={"GORACE": "log_path=%s exitcode=0 halt_on_error=0" % racelog, "VERIF_EXTRA_DOCS": docs, "VERIF_CONC_EVERY": 1 if thorough else 3,
+                            "VERIF_PLAIN_DRIVE": drive})
         log("free-running scenarios under the race detector done in %.1fs" % (time.time() - t_))
         reports = []
         for f in glob.glob(racelog + "*"):
@@ -1059,9 +1065,9 @@ def check_conc(pid, tier, seed, scratch, replay):
 def check_teletext(pid, tier, seed, scratch, replay):
     return codec_check(pid, tier, seed, scratch, dict(
         name="teletext", gen_module="GenTeletext", gen_cfg="GenTeletext.cfg", drive_cmd="teletext", trace_module="TraceTeletext", trace_cfg="TraceTeletext.cfg",
-        mc=[("TeletextMC", "MC_Teletext_%s.cfg" % f, None) for f in "SPEAHCIM"],
+        mc=[("TeletextMC", "MC_Teletext_%s.cfg" % f, None) for f in "SPEAHCIMD"],
         gens=[(dict(GEN_FAM="S"), 1, 1, None), (dict(GEN_FAM="P"), 2, 2, None), (dict(GEN_FAM="E"), 3, 3, None), (dict(GEN_FAM="A"), 1, 1, None),
-              (dict(GEN_FAM="H"), 1, 1, None), (dict(GEN_FAM="C"), 1, 1, None), (dict(GEN_FAM="I"), 1, 1, None), (dict(GEN_FAM="M"), 1, 1, None),
+              (dict(GEN_FAM="H"), 1, 1, None), (dict(GEN_FAM="C"), 1, 1, None), (dict(GEN_FAM="I"), 1, 1, None), (dict(GEN_FAM="M"), 1, 1, None), (dict(GEN_FAM="D"), 1, 1, None),
               (dict(GEN_FAM="I", GEN_WIDE=1), 0, 6, "thorough")],
         nrand=(0, 0), per_jvm=400,
         rule=("TLC enumerates transport-stream descriptions of eight families - S serial mode: every order of 3 target-page instances "
@@ -1073,7 +1079,9 @@ def check_teletext(pid, tier, seed, scratch, replay):
               "PID and of a non-teletext PID interleaved; H: hexadecimal page numbers (1F vs 25, A0, FF); C: all 7 character-set codes x "
               "all 13 national-option positions, sets switching between instances, colour / double-height codes, text outside the box, "
               "parity errors; I: every sequence of 4 instances of the target page, each empty (erase page / repeated header) or not, x 1..3 "
-              "units per PES; M: the target page in every magazine 1..8 (magazine 8 travels as 0), selected by option or auto-detected. Each description is encoded by the harness (own Hamming 8/4 / parity / data-unit encoder), multiplexed by "
+              "units per PES; M: the target page in every magazine 1..8 (magazine 8 travels as 0), selected by option or auto-detected; "
+              "D: a character-set designation (Polish sub-set) by an M/29 packet before / inside the page or in another magazine, or by an X/28 "
+              "packet inside / after the rows / outside the page / in another page of the magazine. Each description is encoded by the harness (own Hamming 8/4 / parity / data-unit encoder), multiplexed by "
               "the astits muxer and read by ReadFromTeletext with the PID auto-detected and given; TLC validates the returned cues "
               "against the normative decoder Expected (spec/Teletext.tla), which is itself checked against the truth each family "
               "carries by construction (TeletextMC). Implementation layer: the `verif` hook at the top of parsePacket records the page "
